@@ -41,6 +41,11 @@ def run_sessions(scripts, procs=12, timeout=60, race=False):
     if race:
         env["GORACE"] = "halt_on_error=0 exitcode=0"
 
+    if any(sc.get("book") for sc in scripts):
+        # sessions with an opening book: the repository's small sample book, copied (the book writes its cache next to the source)
+        shutil.copy(os.path.join(vlib.REPO, "assets", "books", "book_smalltest.txt"), run)
+        scripts = [dict(sc, book=run) if sc.get("book") else sc for sc in scripts]
+
     def one(sc):
         sf = os.path.join(run, "s%d.json" % sc["id"])
         of = os.path.join(run, "o%d.ndjson" % sc["id"])
